@@ -315,6 +315,16 @@ def write_evidence(ctx: Ctx, wall: float, n_viol: int, known_keys):
               assumptions=ctx.assumptions, wall_s=round(wall, 3), violations=n_viol)
     EVIDENCE_DIR.mkdir(exist_ok=True, parents=True)
     (EVIDENCE_DIR / f"{ctx.prop}.json").write_text(json.dumps(ev, indent=1))
+    schema_p = Path("/root/.vp/EVIDENCE.schema.json")
+    if schema_p.exists():
+        try:
+            import jsonschema
+
+            jsonschema.validate(ev, json.loads(schema_p.read_text()))
+        except ImportError:
+            pass
+        except Exception as e:  # an evidence file that does not validate counts as no evidence: say so loudly
+            print(f"HARNESS-WARNING: evidence for {ctx.prop} does not validate: {str(e)[:300]}", file=sys.stderr)
 
 
 def run_replay(path: str) -> int:
